@@ -29,7 +29,8 @@ func init() {
 	register("C09", "lists of 1..4 types: every list of <=3 types of size<=2 over {bool number string placeholder emptytuple emptyobject; list set map tuple1 object{a}} is enumerated, each returned conversion applied to "+
 		"known / null / unknown / marked values of its input type; random lists of 1..4 types to depth 3 (thorough 4) built from one base type by kind changes, element conversions, attribute changes and inserted placeholders, "+
 		"every permutation of sampled multisets, map-before-object and object-before-map orders, mixed-kind lists whose preferred candidate is rejected by a late input; values known, null, refined unknown, marked, nested. "+
-		"non-trivial = a returned non-nil conversion applied to a value; distinct = distinct wire strings of (mode, type list, slot, value)", runC09)
+		"placeholder-free structural lists (objects / tuples / collections sharing one skeleton, depth 1..3, a list among tuples / a map among objects) whose unified type is checked to be placeholder-free (d09b). "+
+		"non-trivial = a returned non-nil conversion applied to a value, or the unified type of a placeholder-free list inspected; distinct = distinct wire strings of (mode, type list, slot, value)", runC09)
 }
 
 type c09Res struct {
@@ -322,6 +323,15 @@ func (c *c09Run) list(tys []cty.Type, nvals int) {
 			continue
 		}
 		ty := res.ty
+		// d09b (C09.unified_plain / unified_type_plain_std): placeholder-free inputs unify to a
+		// placeholder-free type — the side condition the applied-conversion theorems no longer carry
+		if plain {
+			ctx.Eval("unified_plain "+ub+" "+arg, true)
+			ctx.Tag("d09b:plain-inputs:result-" + kindTag(ty))
+			if ty.HasDynamicTypes() {
+				c.fail("unified_plain", "placeholder-in-result:"+kindTag(ty), "placeholder-free types unify to a type with a placeholder", tys, uns, "", "", res.wire())
+			}
+		}
 		// ---- clauses about the returned slice
 		var fails []string
 		if len(res.convs) != len(tys) {
@@ -837,5 +847,11 @@ func runC09(ctx *Ctx) {
 	// nested objects with differing attribute sets, deep chains (c09_d09.go)
 	if sec("4") {
 		c09D09(c)
+	}
+
+	// (5) d09b: placeholder-free structural types that reach the object / tuple sub-unifiers at
+	// several levels (c09_d09b.go)
+	if sec("5") {
+		c09D09b(c)
 	}
 }
